@@ -5,6 +5,7 @@ use crate::wire::*;
 
 pub const IDS: [u16; 6] = [1, 2, 255, 256, 65535, 0x1234];
 pub const SIZES: [usize; 12] = [0, 1, 2, 7, 8, 9, 15, 16, 127, 128, 129, 255];
+pub const BIG_SIZES: [usize; 8] = [16383, 16384, 32767, 32768, 32769, 65528, 65535, 65536];
 
 pub fn gen_id(cx: &mut Ctx) -> u16 {
     if cx.ch.chance(1, 4) {
@@ -317,6 +318,19 @@ pub fn gen_noise(cx: &mut Ctx, phase: Phase, own: u16, max_pair: usize) -> Rec {
             cx.probe("noise_getvalues_empty");
             Rec::new(GETVALUES, 0, Vec::new(), pad)
         }
+    }
+}
+
+/// Clients may put anything into the reserved header byte and the padding bytes: do so in some runs.
+pub fn junk_reserved(cx: &mut Ctx, recs: &mut [Rec]) {
+    if !cx.ch.chance(1, 4) { return; }
+    cx.probe("nonzero_reserved_and_padding_bytes");
+    let a = cx.ch.byte() | 1;
+    for (i, r) in recs.iter_mut().enumerate() {
+        r.reserved = a.wrapping_mul((i as u8).wrapping_add(1));
+        r.pad_fill = a.rotate_left(3) ^ (i as u8) | 0x80;
+        // reserved bytes of a BeginRequest body
+        if r.rtype == BEGIN && r.content.len() == 8 { for b in &mut r.content[3..8] { *b = a ^ 0x5a; } }
     }
 }
 
